@@ -9,7 +9,7 @@ TC=1.98.1-x86_64-unknown-linux-gnu
 export CARGO_NET_OFFLINE=true
 for fs in default all; do
   D="$ROOT/.build/vdeps/$fs"
-  if ls "$D"/target/debug/deps/libfull_moon-*.rlib >/dev/null 2>&1 && [ "$D/Cargo.lock" -nt /repo/Cargo.lock ]; then
+  if ls "$D"/target/debug/deps/libfull_moon-*.rlib >/dev/null 2>&1 && ls "$D"/target/debug/deps/libec4rs-*.rlib >/dev/null 2>&1 && [ "$D/Cargo.lock" -nt /repo/Cargo.lock ]; then
     continue
   fi
   mkdir -p "$D/src"
@@ -24,6 +24,7 @@ edition = "2021"
 full_moon = { version = "=1.2.0", $FEAT }
 anyhow = "1.0.75"
 similar = { version = "2.3.0", features = ["text", "inline", "serde"] }
+ec4rs = "1.0.2"
 [workspace]
 TOML
   cp /repo/Cargo.lock "$D/Cargo.lock"
